@@ -42,3 +42,20 @@ Definition proto_check (c : proto_case) : bool * Z :=
   let changed := negb (nat_list_eqb (read h' 0) (read h 0)) in
   let alias := Nat.eqb q 0 in
   (Bool.eqb changed (pc_obs_changed c) && Bool.eqb alias (pc_obs_alias c), 0%Z).
+
+(** one observed Spectrum arithmetic call (fs*2, 2*fs, fs/fs.S(), fs+ndarray, ...) against the constructor protocol the translator
+    extracted from the operator template of Spectrum_mod.py: does the result's mask / data share memory with the operand's, and
+    does flipping one mask entry of the result change fs.sum() of the operand (the run observes it on the real objects) *)
+Record arith_case := { ac_copies : bool; ac_obs_mask_alias : bool; ac_obs_data_alias : bool; ac_obs_operand_changed : bool }.
+
+Definition arith_check (c : arith_case) : bool * Z :=
+  let pr := {| ctor_copies := ac_copies c |} in
+  let h := [[3; 5; 7]; [1; 0; 0]] in
+  let s := {| s_data := 0; s_mask := 1 |} in
+  let (h', r) := arith (map (fun x => 2 * x)) pr h s in
+  let mask_alias := Nat.eqb (s_mask r) (s_mask s) in
+  let data_alias := Nat.eqb (s_data r) (s_data s) in
+  let h'' := write h' (s_mask r) [1; 1; 0] in
+  let changed := negb (Nat.eqb (observe_spectrum msum h'' s) (observe_spectrum msum h s)) in
+  (Bool.eqb mask_alias (ac_obs_mask_alias c) && Bool.eqb data_alias (ac_obs_data_alias c)
+   && Bool.eqb changed (ac_obs_operand_changed c), 0%Z).
